@@ -26,7 +26,7 @@
  *                            every entry may carry :<num_arg>:<num_local> of the frame it opens (-1 = not a function / literal)
  *   dt ret=<0|obj> <line>|<line>...   the real dump_trace (0) on that control stack: log text, colour codes removed, blanks
  *                            as `~`; ret = its return value (object whose heart_beat() is on the stack)
- *   dta <F|A|L>...|...       the real dump_trace (DUMP_WITH_ARGS | DUMP_WITH_LOCALVARS): which lines follow each frame line
+ *   dta <F|A|L>...|... inner=<num_arg>:<num_local>:<sp - fp>   the real dump_trace (DUMP_WITH_ARGS | DUMP_WITH_LOCALVARS): which lines follow each frame line
  *                            (F frame, A "arguments:", L "local variables:")
  *   ce <file>:<line>:<text>  a compile-time error / warning as the compiler reported it (master log_error)
  * and the verification master (mudlib/c18/master.c) logs   eh caught=.. error=.. file=.. line=.. program=.. object=.. trace=..
@@ -432,6 +432,12 @@ static void frame_counts (const control_stack_t * p, const program_t * prog, int
     }
 }
 
+/* sp - fp of the innermost frame (0 outside any frame: the pointers are not meaningful there and not canonical) */
+static long c18_room (void)
+{
+  return (csp >= control_stack && fp && sp) ? (long) (sp - fp) : 0;
+}
+
 static void error_hook (const char *err, int caught)
 {
   tbuf_t t = { 0, 0, 0 };
@@ -446,8 +452,8 @@ static void error_hook (const char *err, int caught)
       tb_add (&t, " %d:%d:%s:%s:%ld:%d:%d", kind, kind == FRAME_FUNCTION ? p->fr.table_index : 0,
               p->prog ? p->prog->name : "-", p->ob ? p->ob->name : "-", pcoff (p->prog, p->pc), na, nl);
     }
-  tb_add (&t, " cur=%s:%s:%ld", current_prog ? current_prog->name : "-",
-          current_object ? current_object->name : "-", pcoff (current_prog, pc));
+  tb_add (&t, " cur=%s:%s:%ld room=%ld", current_prog ? current_prog->name : "-",
+          current_object ? current_object->name : "-", pcoff (current_prog, pc), c18_room ());
   tb_flush (&t);
   for (p = control_stack; p <= csp; p++)
     dump_prog (p->prog, 0);
@@ -493,6 +499,13 @@ static void error_hook (const char *err, int caught)
           ln = q + 1;
         }
     free (txt);
+    {
+      /* what the test for an innermost frame that is still being set up looks at: its counts and sp - fp */
+      int na = -1, nl = -1;
+      if (csp >= control_stack)	/* an error outside any frame (e.g. a program that does not load) has no innermost frame */
+        frame_counts (csp, current_prog, &na, &nl);
+      tb_add (&t, " inner=%d:%d:%ld", na, nl, c18_room ());
+    }
     tb_flush (&t);
   }
   free (t.s);
